@@ -112,7 +112,8 @@ func (c *checker) runIsolated(cases []tcase) {
 			}
 			env = append(env, e)
 		}
-		cmd.Env = append(env, envChildCases+"="+casesFile, envChildFrom+"="+strconv.Itoa(from), envChildOut+"="+outFile, "GOMAXPROCS=2")
+		cmd.Env = append(env, envChildCases+"="+casesFile, envChildFrom+"="+strconv.Itoa(from), envChildOut+"="+outFile, "GOMAXPROCS=2",
+			"VERIF_WORK="+c.scratch) // the child's scratch lives inside ours and goes away with it
 		cmd.Dir = c.scratch
 		if err := cmd.Start(); err != nil {
 			panic(err)
